@@ -6,6 +6,7 @@ import (
 	"go/token"
 	"go/types"
 	"strings"
+	"sync"
 )
 
 // Obligation is one proof obligation: decls[:NDecl] ∧ PC ∧ ¬Goal must be unsat.
@@ -86,6 +87,12 @@ type Ctx struct {
 	declaredSym    map[string]bool
 	soft           map[int]int
 	views          map[string]types.Type // heap object (by reference term) viewed as raw bytes through unsafe.Pointer: its real element type
+	loopDepth      int
+	pathMode       *pathEnum // non-nil while a loop body is executed in split-paths mode
+	sliceQueries   bool // "opt decl-pc": emit only the declarations in the cone of influence of an obligation
+	declInfo       []declInfo
+	indexMu        sync.Mutex
+	declBool       bool // "opt decl-pc": name path conditions by declared constants
 	goalMode       int // >0 while a clause is evaluated as a proof goal (not as an assumption)
 }
 
@@ -128,6 +135,12 @@ func (c *Ctx) name(t Term, hint string) Term {
 		// (solvers expand define-fun macros inside patterns and then reject ite/and)
 		c.decls = append(c.decls, fmt.Sprintf("(declare-fun %s () %s)", s, t.Sort), fmt.Sprintf("(assert (= %s %s))", s, t.S))
 		c.markDeclared(s)
+		return Term{s, t.Sort}
+	}
+	if t.Sort == SBool && c.declBool && (hint == "pc" || hint == "cond") && !strings.Contains(t.S, "(forall") && !strings.Contains(t.S, "(exists") && !strings.Contains(t.S, "soft!") {
+		// path conditions as declared constants (plus their defining equation): a negated path condition then is a unit
+		// literal, and the ite-selected heaps of merged states collapse by propagation instead of search
+		c.decls = append(c.decls, fmt.Sprintf("(declare-fun %s () Bool)", s), fmt.Sprintf("(assert (= %s %s))", s, t.S))
 		return Term{s, t.Sort}
 	}
 	c.decls = append(c.decls, fmt.Sprintf("(define-fun %s () %s %s)", s, t.Sort, t.S))
@@ -324,7 +337,14 @@ func (o *Obligation) QueryOpt(withModel, light bool) string {
 		b.WriteString("(set-option :produce-models true)\n")
 	}
 	b.WriteString("(set-logic ALL)\n")
+	var keep []bool
+	if c.sliceQueries && !o.Cover {
+		keep = c.sliceDecls(o)
+	}
 	for i, d := range c.decls[:o.NDecl] {
+		if keep != nil && !keep[i] {
+			continue
+		}
 		if light && c.qdecl[i] {
 			continue
 		}
@@ -346,6 +366,162 @@ func (o *Obligation) QueryOpt(withModel, light bool) string {
 		}
 	}
 	return b.String()
+}
+
+// ---- cone-of-influence slicing of queries (used with declared path conditions, whose defining equations would
+// otherwise all be asserted in every query) ----
+
+type declInfo struct {
+	sym   string   // symbol declared / defined by this line ("" for axioms)
+	kind  byte     // 'c' declared constant, 'u' uninterpreted function or sort, 'd' define-fun, 'e' defining equation, 'a' axiom
+	refs  []string // symbols of arity 0 referenced by the line (other than sym)
+}
+
+func symbolsOf(s string) []string {
+	var out []string
+	i := 0
+	for i < len(s) {
+		ch := s[i]
+		if ch == '(' || ch == ')' || ch == ' ' || ch == '\n' || ch == '\t' {
+			i++
+			continue
+		}
+		j := i
+		for j < len(s) && s[j] != '(' && s[j] != ')' && s[j] != ' ' && s[j] != '\n' && s[j] != '\t' {
+			j++
+		}
+		out = append(out, s[i:j])
+		i = j
+	}
+	return out
+}
+
+func (c *Ctx) indexDecls() {
+	known := map[string]bool{}
+	for i := len(c.declInfo); i < len(c.decls); i++ {
+		c.declInfo = append(c.declInfo, declInfo{})
+	}
+	// first pass: which symbols are constants (arity 0) introduced by declare-fun / define-fun
+	for i, d := range c.decls {
+		f := strings.Fields(d)
+		if len(f) < 3 {
+			c.declInfo[i] = declInfo{kind: 'a'}
+			continue
+		}
+		switch f[0] {
+		case "(declare-fun":
+			if f[2] == "()" {
+				c.declInfo[i] = declInfo{sym: f[1], kind: 'c'}
+				known[f[1]] = true
+			} else {
+				c.declInfo[i] = declInfo{sym: f[1], kind: 'u'}
+			}
+		case "(define-fun":
+			if f[2] == "()" {
+				c.declInfo[i] = declInfo{sym: f[1], kind: 'd'}
+				known[f[1]] = true
+			} else {
+				c.declInfo[i] = declInfo{sym: f[1], kind: 'u'}
+			}
+		case "(assert":
+			c.declInfo[i] = declInfo{kind: 'a'}
+			if len(f) >= 3 && f[1] == "(=" && i > 0 && c.declInfo[i-1].kind == 'c' && c.declInfo[i-1].sym == f[2] {
+				c.declInfo[i] = declInfo{sym: f[2], kind: 'e'}
+			}
+		default:
+			c.declInfo[i] = declInfo{kind: 'u'}
+		}
+	}
+	for i, d := range c.decls {
+		di := &c.declInfo[i]
+		if di.kind == 'u' || di.kind == 'c' {
+			continue
+		}
+		seen := map[string]bool{}
+		for _, s := range symbolsOf(d) {
+			if known[s] && s != di.sym && !seen[s] {
+				seen[s] = true
+				di.refs = append(di.refs, s)
+			}
+		}
+	}
+}
+
+func (c *Ctx) sliceDecls(o *Obligation) []bool {
+	c.indexMu.Lock()
+	if len(c.declInfo) != len(c.decls) {
+		c.indexDecls()
+	}
+	c.indexMu.Unlock()
+	n := o.NDecl
+	reach := map[string]bool{}
+	var work []string
+	add := func(s string) {
+		if !reach[s] {
+			reach[s] = true
+			work = append(work, s)
+		}
+	}
+	defLine := map[string][]int{}
+	for i := 0; i < n; i++ {
+		if di := c.declInfo[i]; di.kind == 'd' || di.kind == 'e' {
+			defLine[di.sym] = append(defLine[di.sym], i)
+		}
+	}
+	for _, s := range symbolsOf(o.PC.S + " " + o.Goal.S) {
+		add(s)
+	}
+	keep := make([]bool, n)
+	axiomDone := make([]bool, n)
+	for {
+		for len(work) > 0 {
+			s := work[len(work)-1]
+			work = work[:len(work)-1]
+			for _, i := range defLine[s] {
+				for _, r := range c.declInfo[i].refs {
+					add(r)
+				}
+			}
+		}
+		// axioms that talk about a reachable symbol join the cone (and pull in the other symbols they mention)
+		grew := false
+		for i := 0; i < n; i++ {
+			di := c.declInfo[i]
+			if di.kind != 'a' || axiomDone[i] {
+				continue
+			}
+			hit := len(di.refs) == 0
+			for _, r := range di.refs {
+				if reach[r] {
+					hit = true
+					break
+				}
+			}
+			if hit {
+				axiomDone[i] = true
+				keep[i] = true
+				for _, r := range di.refs {
+					if !reach[r] {
+						add(r)
+						grew = true
+					}
+				}
+			}
+		}
+		if !grew && len(work) == 0 {
+			break
+		}
+	}
+	for i := 0; i < n; i++ {
+		di := c.declInfo[i]
+		switch di.kind {
+		case 'u':
+			keep[i] = true
+		case 'c', 'd', 'e':
+			keep[i] = reach[di.sym]
+		}
+	}
+	return keep
 }
 
 func (c *Ctx) typeDecl(n *types.Named) *TypeDecl {
